@@ -83,6 +83,30 @@ func init() {
 			{Name: "Table.Lookup scans without the lock", ExpectRule: "C08.R4", Edits: []Edit{
 				{File: f, Old: "func (t *Table) Lookup(ip net.IP) *Route {\n\tt.mu.RLock()\n\tdefer t.mu.RUnlock()\n\n\treturn t.lookupUnlocked(ip)\n}", New: "func (t *Table) Lookup(ip net.IP) *Route {\n\treturn t.lookupUnlocked(ip)\n}"},
 			}},
+			{Name: "round2: host-route fast path in front of the scan", ExpectRule: "C08.R3", ExpectKey: "every result comes out of the scan", Edits: []Edit{
+				{File: f, Old: "func (t *Table) lookupUnlocked(ip net.IP) *Route {\n\tvar bestRoute *Route\n", New: "func (t *Table) lookupUnlocked(ip net.IP) *Route {\n\tif routes := t.routes[ip.String()+\"/32\"]; len(routes) > 0 {\n\t\treturn routes[0].Clone()\n\t}\n\tvar bestRoute *Route\n"},
+			}},
+			{Name: "round2: negative cache in front of the scan", ExpectRule: "C08.R3", ExpectKey: "every result comes out of the scan", Edits: []Edit{
+				{File: f, Old: "func (t *Table) lookupUnlocked(ip net.IP) *Route {\n\tvar bestRoute *Route\n", New: "func (t *Table) lookupUnlocked(ip net.IP) *Route {\n\tif _, miss := lookupMiss.Load(ip.String()); miss {\n\t\treturn nil\n\t}\n\tvar bestRoute *Route\n"},
+				{File: f, Old: "// lookupUnlocked performs lookup without locking (caller must hold lock).\nfunc (t *Table) lookupUnlocked", New: "var lookupMiss sync.Map\n\n// lookupUnlocked performs lookup without locking (caller must hold lock).\nfunc (t *Table) lookupUnlocked"},
+			}},
+			{Name: "round2: IPv6 addresses rejected before the scan", ExpectRule: "C08.R3", ExpectKey: "every result comes out of the scan", Edits: []Edit{
+				{File: f, Old: "func (t *Table) lookupUnlocked(ip net.IP) *Route {\n\tvar bestRoute *Route\n", New: "func (t *Table) lookupUnlocked(ip net.IP) *Route {\n\tif ip.To4() == nil {\n\t\treturn nil\n\t}\n\tvar bestRoute *Route\n"},
+			}},
+			{Name: "round2: result cache in Table.Lookup", ExpectRule: "C08.R4", Edits: []Edit{
+				{File: f, Old: "\tdefer t.mu.RUnlock()\n\n\treturn t.lookupUnlocked(ip)\n}", New: "\tdefer t.mu.RUnlock()\n\n\tif r, ok := lookupHot.Load(ip.String()); ok {\n\t\treturn r.(*Route).Clone()\n\t}\n\tr := t.lookupUnlocked(ip)\n\tif r != nil {\n\t\tlookupHot.Store(ip.String(), r)\n\t}\n\treturn r\n}"},
+				{File: f, Old: "// lookupUnlocked performs lookup without locking (caller must hold lock).\nfunc (t *Table) lookupUnlocked", New: "var lookupHot sync.Map\n\n// lookupUnlocked performs lookup without locking (caller must hold lock).\nfunc (t *Table) lookupUnlocked"},
+			}},
+			{Name: "round2: scan stops once a /32 or longer was found", ExpectRule: "C08.R3", Edits: []Edit{
+				{File: f, Old: "\t\t\tbestRoute = first // First is best due to sorting by metric\n\t\t}\n", New: "\t\t\tbestRoute = first // First is best due to sorting by metric\n\t\t}\n\t\tif bestPrefixLen >= 32 {\n\t\t\tbreak\n\t\t}\n"},
+			}},
+			{Name: "round2: re-sort only when the updated entry can move ahead", ExpectRule: "C08.R1", ExpectKey: "AddRoute bucket replace", Edits: []Edit{
+				{File: f, Old: "\t\t\t\tt.routes[key][i] = cloned\n\t\t\t\tt.sortRoutes(key)\n", New: "\t\t\t\tt.routes[key][i] = cloned\n\t\t\t\tif i > 0 && cloned.Metric < existing[i-1].Metric {\n\t\t\t\t\tt.sortRoutes(key)\n\t\t\t\t}\n"},
+			}},
+			{Name: "round2 rewrite: nil/empty guards in front of the scan and in Lookup", Edits: []Edit{
+				{File: f, Old: "func (t *Table) lookupUnlocked(ip net.IP) *Route {\n\tvar bestRoute *Route\n", New: "func (t *Table) lookupUnlocked(ip net.IP) *Route {\n\tif ip == nil || len(t.routes) == 0 {\n\t\treturn nil\n\t}\n\tvar bestRoute *Route\n"},
+				{File: f, Old: "func (t *Table) Lookup(ip net.IP) *Route {\n\tt.mu.RLock()", New: "func (t *Table) Lookup(ip net.IP) *Route {\n\tif len(ip) == 0 {\n\t\treturn nil\n\t}\n\tt.mu.RLock()"},
+			}},
 			// behaviour-preserving rewrites
 			{Name: "rewrite: operands swapped and !(a<=b)", Edits: []Edit{
 				{File: f, Old: "\t\tif ones > bestPrefixLen ||\n\t\t\t(ones == bestPrefixLen && first.Metric < bestRoute.Metric) {", New: "\t\tif !(ones <= bestPrefixLen) ||\n\t\t\t(bestPrefixLen == ones && bestRoute.Metric > first.Metric) {"},
@@ -475,6 +499,37 @@ func (m *c08Model) checkScan(r *kit.Report, tbl *c08Table, fn *ssa.Function) {
 		}
 		return replaced, in, ""
 	}
+
+	// --- every result comes out of the scan (no fast path, cache or early return)
+	loopBlocks := c08NaturalLoop(h)
+	var early []string
+	for _, ret := range kit.Returns(fn) {
+		if ret.Block() == fn.Recover || len(ret.Results) != 1 {
+			continue
+		}
+		after := ret.Block() == exit || exit.Dominates(ret.Block())
+		v := kit.ReturnResult(ret, 0)
+		if c, ok := v.(*ssa.Call); ok && kit.CalleeOf(c).Static != nil && len(c.Call.Args) == 1 && c08RouteOfPtr(c.Call.Args[0].Type()) == tbl.route {
+			v = c.Call.Args[0]
+		}
+		switch {
+		case after && (kit.IsNilConst(v) || v == ssa.Value(best)):
+			// judged by the result obligation below
+		case after:
+			early = append(early, "the return at "+p.Pos(ret.Pos())+" after the scan hands out something other than the best candidate")
+		case loopBlocks[ret.Block()]:
+			early = append(early, "the return at "+p.Pos(ret.Pos())+" leaves the scan before every bucket has been considered")
+		case kit.IsNilConst(v):
+			if !c08TrivialNilReturn(fn, ret) {
+				early = append(early, "nil is returned at "+p.Pos(ret.Pos())+" before the scan on a condition other than a nil/empty address or an empty table (a stored route containing the address is not reported)")
+			}
+		default:
+			early = append(early, "a route is returned at "+p.Pos(ret.Pos())+" without the scan over all buckets (fast path / cache / early return): a longer stored prefix containing the address, or a lower metric, is never looked at")
+		}
+	}
+	r.Decide(len(early) == 0, "C08.R3", fname+" every result comes out of the scan", pos,
+		"every return lies behind the complete scan and returns the best candidate or nil",
+		strings.Join(early, "; "))
 
 	// --- containment and head-of-bucket, per candidate leaf
 	nCand := 0
@@ -1698,9 +1753,9 @@ func c08BlockReaches(from, to *ssa.BasicBlock) bool {
 	return false
 }
 
-// c08LoopSuccs splits the successors of loop header h into the body entry and the exit.
-func c08LoopSuccs(h *ssa.BasicBlock) (body, exit *ssa.BasicBlock) {
-	// natural loop of h: blocks that reach a back-edge source without passing through h
+// c08NaturalLoop returns the natural loop of header h: h plus the blocks that reach a
+// back-edge source without passing through h.
+func c08NaturalLoop(h *ssa.BasicBlock) map[*ssa.BasicBlock]bool {
 	in := map[*ssa.BasicBlock]bool{h: true}
 	var work []*ssa.BasicBlock
 	for _, p := range h.Preds {
@@ -1719,6 +1774,12 @@ func c08LoopSuccs(h *ssa.BasicBlock) (body, exit *ssa.BasicBlock) {
 			}
 		}
 	}
+	return in
+}
+
+// c08LoopSuccs splits the successors of loop header h into the body entry and the exit.
+func c08LoopSuccs(h *ssa.BasicBlock) (body, exit *ssa.BasicBlock) {
+	in := c08NaturalLoop(h)
 	for _, s := range h.Succs {
 		if in[s] && s != h {
 			if body == nil {
@@ -1805,7 +1866,8 @@ func c08EvalPred(g *ssa.Function, atom kit.AtomEval) (bool, bool) {
 }
 
 // c08ReturnedCall: every non-recover return of fn returns directly the result of one static
-// call; returns that call (nil when the shape differs).
+// call (returns of nil justified only by an empty/nil argument or an empty table are
+// tolerated); returns that call (nil when the shape differs).
 func c08ReturnedCall(fn *ssa.Function) *ssa.Call {
 	var call *ssa.Call
 	for _, ret := range kit.Returns(fn) {
@@ -1814,6 +1876,9 @@ func c08ReturnedCall(fn *ssa.Function) *ssa.Call {
 		}
 		if len(ret.Results) != 1 {
 			return nil
+		}
+		if c08TrivialNilReturn(fn, ret) {
+			continue
 		}
 		c, ok := kit.ReturnResult(ret, 0).(*ssa.Call)
 		if !ok || kit.CalleeOf(c).Static == nil {
@@ -1825,4 +1890,111 @@ func c08ReturnedCall(fn *ssa.Function) *ssa.Call {
 		call = c
 	}
 	return call
+}
+
+// c08TrivialNilReturn: ret returns nil and is reached only through tests of the kind
+// "argument is nil / empty" or "the table's bucket map is empty" (at least one of them in
+// the justifying polarity). Such a return cannot hide a stored route: no bucket can match a
+// nil/empty argument and an empty table holds nothing. Anything else in front of a nil
+// return (negative cache, address-family filter, ...) is not trivial.
+func c08TrivialNilReturn(fn *ssa.Function, ret *ssa.Return) bool {
+	if len(ret.Results) != 1 || !kit.IsNilConst(kit.ReturnResult(ret, 0)) {
+		return false
+	}
+	subject := func(v ssa.Value) (isMap bool, ok bool) {
+		v = kit.Unwrap(v)
+		for i := 0; i < 3; i++ {
+			if c, isCall := v.(*ssa.Call); isCall && len(c.Call.Args) == 1 {
+				cal := kit.CalleeOf(c)
+				if (cal.Pkg == "net" && cal.Recv == "IP" && cal.Name == "To16") || (cal.Pkg == "strings" && (cal.Name == "TrimSpace" || cal.Name == "ToLower")) {
+					v = c.Call.Args[0]
+					continue
+				}
+			}
+			break
+		}
+		if _, isPrm := v.(*ssa.Parameter); isPrm {
+			return false, true
+		}
+		if f, base := kit.LoadedField(v); f != nil && c08RouteOfMap(f.Type()) != nil && len(fn.Params) > 0 && base == ssa.Value(fn.Params[0]) {
+			return true, true
+		}
+		return false, false
+	}
+	// classify one branch condition under a polarity: trivial kind? justifying a nil result?
+	classify := func(cond ssa.Value, polarity bool) (trivial, justifies bool) {
+		c, pol := c08NormCond(cond, polarity)
+		b, ok := c.(*ssa.BinOp)
+		if !ok {
+			return false, false
+		}
+		holds := func(n int64) (bool, bool) { // value of the guard when len(subject) == n
+			for _, pr := range [][2]ssa.Value{{b.X, b.Y}, {b.Y, b.X}} {
+				cl, isCall := pr[0].(*ssa.Call)
+				if !isCall || kit.CalleeOf(cl).Built != "len" {
+					continue
+				}
+				if _, ok := subject(cl.Call.Args[0]); !ok {
+					continue
+				}
+				k, isc := kit.ConstInt(pr[1])
+				if !isc {
+					continue
+				}
+				o := c08Sign(n - k)
+				if pr[0] != b.X {
+					o = -o
+				}
+				return kit.CmpUnder(b.Op, o) == pol, true
+			}
+			return false, false
+		}
+		if h0, ok := holds(0); ok {
+			h1, _ := holds(1)
+			h16, _ := holds(16)
+			return true, h0 && !h1 && !h16
+		}
+		if b.Op == token.EQL || b.Op == token.NEQ {
+			var other ssa.Value
+			switch {
+			case kit.IsNilConst(b.Y):
+				other = b.X
+			case kit.IsNilConst(b.X):
+				other = b.Y
+			default:
+				if sv, isS := kit.ConstString(b.Y); isS && sv == "" {
+					other = b.X
+				} else if sv, isS := kit.ConstString(b.X); isS && sv == "" {
+					other = b.Y
+				}
+			}
+			if other != nil {
+				if isMap, ok := subject(other); ok && !isMap {
+					return true, (b.Op == token.EQL) == pol
+				}
+			}
+		}
+		return false, false
+	}
+	blk := ret.Block()
+	if len(blk.Preds) == 0 {
+		return false
+	}
+	// every edge into the returning block is the justifying edge of a trivial test, and the
+	// tests passed before it are of the trivial kind as well (handles `a || b`)
+	for _, pr := range blk.Preds {
+		ifi, ok := pr.Instrs[len(pr.Instrs)-1].(*ssa.If)
+		if !ok || pr.Succs[0] == pr.Succs[1] {
+			return false
+		}
+		if _, just := classify(ifi.Cond, pr.Succs[0] == blk); !just {
+			return false
+		}
+		for _, g := range kit.Guards(pr) {
+			if triv, _ := classify(g.Cond, g.Polarity); !triv {
+				return false
+			}
+		}
+	}
+	return true
 }
